@@ -47,6 +47,8 @@ POSITIONS = ["1", "2", "all"]
 POSITIONS_DEEP = ["1", "2", "3", "from2", "all"]
 
 OUT = {"id-req-1": "/"}
+AA_URL = "https://idp.example.org/aa/soap"
+MNI_URL = "https://idp.example.org/mni/soap"
 
 
 def gen_cases(tier, seed):
@@ -54,7 +56,8 @@ def gen_cases(tier, seed):
     global POSITIONS
     POSITIONS = POSITIONS_DEEP if tier == "thorough" else ["1", "2", "all"]
     # verification sites
-    for site in ("verify-response", "verify-assertion", "verify-both", "verify-request", "verify-assertion-in-encrypted"):
+    for site in ("verify-response", "verify-assertion", "verify-both", "verify-request", "verify-assertion-in-encrypted",
+                 "verify-request:logout", "verify-request:attribute-query", "verify-request:manage-name-id", "verify-logout-response"):
         for msg in ("valid", "tampered"):
             for pos in POSITIONS:
                 for mode in VERIFY_MODES + GARBLED_MODES:
@@ -119,6 +122,9 @@ def _entities(ctx, which, tool=None):
                           authn_requests_signed=True)
         sp_for_md = fed.sp_conf(want_response_signed=bool(wrs), want_assertions_signed=bool(was), enc_keys=(2,), authn_requests_signed=True)
         idc = fed.idp_conf(xmlsec=tool, want_authn_requests_signed=bool(wreq))
+        from saml2_tophat import BINDING_SOAP as _SOAP
+        idc["service"]["aa"] = {"endpoints": {"attribute_service": [(AA_URL, _SOAP)]}, "policy": fed.DEFAULT_POLICY}
+        idc["service"]["idp"]["endpoints"]["manage_name_id_service"] = [(MNI_URL, _SOAP)]
         return fed.make_sp(spc, [fed.metadata_of(idc)]), fed.make_idp(idc, [fed.metadata_of(sp_for_md)])
     return ctx.fedcache.get("ents", [list(which), tool or ""], build)
 
@@ -245,6 +251,44 @@ def run_case(case, ctx):
                 evs = log_events()
             accepted = r is not None and getattr(r, "message", None) is not None
             need_levels = ["AuthnRequest"]
+        elif site.startswith("verify-request:") or site == "verify-logout-response":
+            # the other signed message types go through wrappers of their own in front of the same verification
+            from saml2_tophat import BINDING_SOAP
+            from saml2_tophat.saml import NameID, NAMEID_FORMAT_PERSISTENT
+            sp, idp = _entities(ctx, (1, 0, 0, 1), tool)
+            good_sp, good_idp = _entities(ctx, (1, 0, 0, 1), None)
+            nid = NameID(format=NAMEID_FORMAT_PERSISTENT, text="subject-1", sp_name_qualifier=fed.SP_EID, name_qualifier=fed.IDP_EID)
+            what = site.split(":", 1)[1] if ":" in site else "logout-response"
+            receiver, fn = idp, None
+            if what == "logout":
+                rid, req = good_sp.create_logout_request(fed.SLO_IDP + "/soap", fed.IDP_EID, name_id=nid, reason="user", sign=True)
+                fn, need_levels = "parse_logout_request", ["LogoutRequest"]
+            elif what == "attribute-query":
+                rid, req = good_sp.create_attribute_query(AA_URL, nid, attribute={"givenName": None}, sign=True)
+                fn, need_levels = "parse_attribute_query", ["AttributeQuery"]
+            elif what == "manage-name-id":
+                from saml2_tophat.samlp import NewID
+                rid, req = good_sp.create_manage_name_id_request(MNI_URL, name_id=nid, new_id=NewID(text="new-sp-id"), sign=True)
+                fn, need_levels = "parse_manage_name_id_request", ["ManageNameIDRequest"]
+            else:
+                lr = good_sp.create_logout_request(fed.SLO_IDP + "/soap", fed.IDP_EID, name_id=nid, reason="user")[1]
+                req = good_idp.create_logout_response(lr, [BINDING_SOAP], sign=True)
+                receiver, fn, need_levels = sp, "parse_logout_request_response", ["LogoutResponse"]
+            xml = "%s" % req       # (signed by the library itself; over SOAP only its own prefixes survive the unwrapping)
+            if case["msg"] == "tampered":
+                dd_ = xk.Doc(xml)
+                leaf_ = [n for n in dd_.root.iter() if not n.children and dd_.inner(n).strip() and n.ns != xk.DS]
+                xml = dd_.set_text(leaf_[-1], "attacker-" + dd_.inner(leaf_[-1]).decode()).text()
+            body_ = xml[xml.index("?>") + 2:] if xml.startswith("<?xml") else xml
+            enc = '<ns0:Envelope xmlns:ns0="http://schemas.xmlsoap.org/soap/envelope/"><ns0:Body>%s</ns0:Body></ns0:Envelope>' % body_
+            with Fault(ctx, case):
+                try:
+                    r = getattr(receiver, fn)(enc, BINDING_SOAP)
+                    exc = None
+                except Exception as e:
+                    r, exc = None, e
+                evs = log_events()
+            accepted = r is not None and (getattr(r, "message", None) is not None or getattr(r, "response", None) is not None)
         else:
             wrs, was = {"verify-response": (1, 0), "verify-assertion": (0, 1), "verify-both": (1, 1), "verify-assertion-in-encrypted": (0, 1)}[site]
             sp, idp = _entities(ctx, (wrs, was, 0, 0), tool)
